@@ -317,6 +317,17 @@ def _fresh_replay(prop: str, case: Any, timeout: int = 300) -> Optional[dict]:
         return {'error': 'unparsable: ' + p.stdout[-500:]}
 
 
+def fresh_call(prop: str, fn: str, arg: Any, timeout: int = 300) -> Any:
+    """Call mc.props.<prop>.<fn>(arg) in a fresh interpreter and return its JSON result."""
+    env = dict(os.environ)
+    env.update({'PYTHONDONTWRITEBYTECODE': '1', 'PYTHONHASHSEED': '0', GUARD: '1'})
+    p = subprocess.run([PY, '-B', os.path.join(VERIF, 'check'), '--fn', prop, fn], input=json.dumps(arg),
+                       capture_output=True, text=True, env=env, timeout=timeout, cwd=VERIF)
+    if p.returncode != 0:
+        raise RuntimeError(f"fresh call {prop}.{fn} failed: {p.stderr[-1500:]}")
+    return json.loads(p.stdout.strip().splitlines()[-1])
+
+
 def write_replay(prop: str, v: dict) -> str:
     d = os.path.join(VERIF, 'replays', prop)
     os.makedirs(d, exist_ok=True)
@@ -342,6 +353,7 @@ def run_check(prop: str, tier: str) -> int:
     from mc import selftest_rp66
     selftest_rp66.run(quiet=True)
 
+    os.environ['VERIF_SHARED_SCRATCH'] = scratch_dir()      # shared by all workers of this run, removed at exit
     ctx = mp.get_context('spawn')
     total = {'executions': 0, 'nodes': 0, 'edges': 0, 'outcomes': Counter(), 'nontrivial': 0, 'samples': [],
              'violations': [], 'viol_count': Counter(), 'digests': []}
@@ -503,6 +515,13 @@ def main(argv: list[str]) -> int:
         case = json.loads(sys.stdin.read())
         out = replay_case(argv[1], case)
         print(json.dumps(out.to_json(), default=str))
+        return 0
+    if len(argv) >= 3 and argv[0] == '--fn':
+        # fresh-interpreter call of a harness function: argument JSON on stdin, result JSON on stdout
+        sys.path.insert(0, VERIF)
+        env_setup()
+        mod = _load(argv[1])
+        print(json.dumps(getattr(mod, argv[2])(json.loads(sys.stdin.read())), default=str))
         return 0
     if len(argv) >= 3 and argv[1] == '--replay':
         sys.path.insert(0, VERIF)
